@@ -268,6 +268,58 @@ pub fn run(ctx: &Ctx) -> i32 {
         total.exhaustive.push("all ordered pairs over each encoder's class alphabet incl. lone surrogates (triples for ISO-2022-JP; for all encoders in thorough)".into());
     }
 
+    // (b2) two non-ASCII characters inside a long ASCII run (first at offsets 0..=33, second at
+    // distances 1..=40 and around 48/64/128), both source forms
+    if !fw::should_stop() {
+        let e = super::ench::encoder_encodings();
+        let st = par_run(ctx, e.len() * 2, |part, st| {
+            let enc = e[part / 2];
+            let half = part % 2;
+            let algo = enc_algo_for(enc);
+            let alpha: Vec<u32> = hist_enc::alphabet(enc).into_iter().filter(|c| *c >= 0x80).collect();
+            let mut picks: Vec<u32> = alpha.iter().cloned().step_by((alpha.len() / 5).max(1)).collect();
+            picks.push(0xD800);
+            picks.push(0x1F600);
+            let mut drv = EncDriver::new();
+            let mut dists: Vec<usize> = (1..=40).collect();
+            dists.extend_from_slice(&[47, 48, 49, 63, 64, 65, 127, 128, 129]);
+            for (xi, &x) in picks.iter().enumerate() {
+                for (yi, &y) in picks.iter().enumerate() {
+                    if (xi + yi) % 2 != half {
+                        continue;
+                    }
+                    for p in (0..=33usize).step_by(if ctx.tier == fw::Tier::Thorough { 1 } else { 3 }).chain([15usize, 16, 17, 31, 32].into_iter()) {
+                        if fw::should_stop() {
+                            return;
+                        }
+                        for &d in &dists {
+                            let mut text: Vec<u32> = (0..p).map(|i| 0x61 + (i % 26) as u32).collect();
+                            text.push(x);
+                            text.extend((0..d - 1).map(|i| 0x41 + (i % 26) as u32));
+                            text.push(y);
+                            text.extend((0..19).map(|i| 0x30 + (i % 10) as u32));
+                            let has_sur = is_sur(x) || is_sur(y);
+                            for src in [Src::Utf8, Src::Utf16] {
+                                if has_sur && src == Src::Utf8 {
+                                    continue;
+                                }
+                                st.evals += 1;
+                                st.nontrivial_distinct();
+                                st.class("two-characters-in-long-ascii");
+                                if let Some(msg) = check_text(enc, algo, src, (p + d) % 2 == 0, &text, &mut drv) {
+                                    st.violations.push(violation(enc, src, (p + d) % 2 == 0, &text, msg));
+                                    return;
+                                }
+                            }
+                        }
+                    }
+                }
+            }
+        });
+        total.merge(st);
+        total.exhaustive.push("per encoder: two non-ASCII characters inside an ASCII run (first at offsets 0..=33 step 3 plus 15/16/17/31/32, second at distances 1..=40, 47..49, 63..65, 127..129), UTF-8 and UTF-16 sources".into());
+    }
+
     // (c) random texts
     if !fw::should_stop() {
         use proptest::prelude::*;
